@@ -764,7 +764,29 @@ def run_reentrant_case(ctx, res, case):
             return len(data)
 
     out = Out()
-    gw = gb.BaseGateway(gb.Popen2IO(out, LoggedReader(None), em), "reentrant", _startcount=1)
+    if case["when"] == "inside-buffered":
+        # the real stdio pipe is an io.BufferedWriter: a collection triggered while it is inside write()/flush() (it
+        # allocates a memoryview for the raw write) runs the finaliser with the writer's own lock held — the nested
+        # write is refused ("reentrant call inside <_io.BufferedWriter>") unless _send defers it
+        import io as _io
+
+        class Raw(_io.RawIOBase):
+            def writable(self):
+                return True
+
+            def write(self, b):
+                idx = len(out.calls)
+                if idx == case["nth"] and "ch" in holder:
+                    fired.append(idx)
+                    del holder["ch"]
+                    gc.collect()
+                out.calls.append(bytes(b))
+                return len(b)
+
+        writer = _io.BufferedWriter(Raw(), buffer_size=64)
+    else:
+        writer = out
+    gw = gb.BaseGateway(gb.Popen2IO(writer, LoggedReader(None), em), "reentrant", _startcount=1)
     ch_main = gw.newchannel()
     holder["ch"] = gw.newchannel()
     doomed_id = holder["ch"].id
@@ -1093,6 +1115,7 @@ def run(ctx):
     for nth in range(0, 4):
         for when in ("before", "after"):
             run_case(ctx, res, dict(kind="reentrant", nth=nth, when=when, payloads=["", "aa" * 20, "00"]), batch)
+        run_case(ctx, res, dict(kind="reentrant", nth=nth, when="inside-buffered", payloads=["", "aa" * 200, "00"]), batch)
     # 8. thorough: real gateways, D8 reproduction
     if ctx.thorough or ctx.search_mode:
         rounds = 4 if ctx.thorough else 2
